@@ -2,8 +2,8 @@ from common import COMMON_TB
 
 CFG = {
     "technique": "Lean 4 theorems over a generic write-program model (all programs, states, fault positions) + extracted error-handling table of every write path (go/types) + exhaustive fault-position injection on the real code through a walletdb decorator",
-    "level_text": "Error-or-full-effect, rollback-restores and retry are Lean theorems about every write program whose sites propagate errors / obey the memory-after-disk discipline; that the real call sites propagate is a generated fact (ErrSitesGen, decided in Lean, one known exception: waddrmgr.putAddrAccountIndex); every mutating operation of wtxmgr.Store and waddrmgr.Manager/ScopedKeyManager is run on the real code with a failure injected at every write position from states reached by random histories, and the observed result class is compared with the model's prediction for the recorded program.",
-    "level_note": "The model is parametric: the tie to the Go code is the extractor table (every dynamic call-stack frame above a write must be an extracted site) plus exhaustive fault-position enumeration per (operation, state); the data effect of writes is abstract. Trusted: Lean kernel, the extractor and the faultdb decorator, walletdb.Update atomicity (C11), bbolt.",
+    "level_text": "Error-or-full-effect, rollback-restores and retry are Lean theorems about every write program whose sites propagate errors / obey the memory-after-disk discipline; that the real call sites propagate is a generated fact decided in Lean without exception (C10_generated_sites_propagate: ErrSitesGen.allPropagated = true, and C10_generated_table_propagates for the frame table; regenerated from /repo's source on every run); every mutating operation of wtxmgr.Store and waddrmgr.Manager/ScopedKeyManager is run on the real code with a failure injected at every write position from states reached by random histories, and the observed result class is compared with the model's prediction for the recorded program.",
+    "level_note": "The model is parametric: the tie to the Go code is the extractor table (every dynamic call-stack frame above a write must be an extracted site) plus exhaustive fault-position enumeration per (operation, state); the data effect of writes is abstract. The former exception waddrmgr.putAddrAccountIndex (swallowed a failed index write) is fixed in /repo 277cb7d, which made C10_generated_sites_propagate a full theorem; the two older table theorems C10_generated_sites_propagate_partial / C10_generated_table_propagates_partial (every site propagates except possibly that one) are kept and still true, being weaker, and C10_putAddrAccountIndex_counterexample keeps the replay of the old handling in the model. Open findings of C10 are the memory-ahead-of-disk keys of waddrmgr listed in known-findings.txt (eager cache updates inside the transaction), not error propagation. Trusted: Lean kernel, the extractor and the faultdb decorator, walletdb.Update atomicity (C11), bbolt.",
     "lean_props": ["BtcwVerif.Props.C10"],
     "engines": ["faultops"],
     "extractors": [{"name": "errsites", "out": "ErrSitesGen.lean"}],
